@@ -27,6 +27,27 @@ def t_r11():
     t = lift.LText('opt(tag(b":dn"))(i); tag(b"")(i); let s = "b\\"x";', 1)
     assert lift.r11_bstr(t) == 2 and '&[58u8, 100u8, 110u8]' in t.s and '&[0u8; 0]' in t.s and '"b\\"x"' in t.s, t.s
 
+def t_r12_and_cut_from():
+    # R12 (call-argument replacement) and L4b (suffix cut) on a scratch source tree
+    import tempfile, os, shutil
+    d = tempfile.mkdtemp(prefix='lift_selftest_')
+    try:
+        os.makedirs(os.path.join(d, 'src'))
+        open(os.path.join(d, 'src', 'a.rs'), 'w').write(
+            'fn f(v: Vec<u8>) -> usize {\n    let mut n = 0;\n    let k = v.into_iter().filter_map(|x| { n += 1; if x > (1) { Some(x) } else { None } }).count();\n    let z = k + n;\n    z\n}\n')
+        tpl = os.path.join(d, 'unit.rs')
+        open(tpl, 'w').write('verus! {\n//@lift name=f file=src/a.rs fn=f\n//@ arg ".filter_map(|x|" => "&mut n"\n//@ spec\n    ensures true,\n//@end\n'
+                             '//@lift name=f::tail file=src/a.rs fn=f as="fn f_tail(k: usize, n: usize) -> usize"\n//@ cut from "let z = k + n;"\n//@ spec\n    ensures true,\n//@end\n}\n')
+        gen, meta = lift.build_unit(tpl, d)
+        assert '.filter_map(&mut n).count()' in gen, gen
+        assert 'Some(x)' not in gen.split('fn f_tail')[0], gen
+        tail = gen.split('fn f_tail')[1]
+        assert 'let z = k + n;' in tail and 'into_iter' not in tail, gen
+        f0 = [f for f in meta['functions'] if f['name'] == 'f'][0]
+        assert f0['rules'].get('R12') == 1, f0
+    finally:
+        shutil.rmtree(d)
+
 def t_attribution():
     """every property named in a clause label must run the unit that holds the clause (labels of the shared include
     files are repeated in every unit and are exempt)"""
@@ -50,7 +71,7 @@ def t_attribution():
                     bad.append((p, u, lab))
     assert not bad, 'clause labels name properties whose check does not run the unit: %s' % bad[:5]
 
-t_mask(); t_rules(); t_r11(); t_attribution()
+t_mask(); t_rules(); t_r11(); t_r12_and_cut_from(); t_attribution()
 for cmd in (['verus', '--version'], ['cargo', 'kani', '--version']):
     p = subprocess.run(cmd, stdout=subprocess.PIPE, stderr=subprocess.STDOUT, text=True, env=dict(os.environ, CARGO_NET_OFFLINE='true'))
     print(' '.join(cmd), '->', p.stdout.strip().splitlines()[0] if p.stdout.strip() else p.returncode)
